@@ -537,6 +537,10 @@ func runPrice(a *App, mon *Mon, seed int64, c priceCase) {
 	// pricing texts the schema must refuse: a "discount" that is not below one
 	pbad := s.A.SignProv[1]
 	s.bind("svc", pbad, s.A.Owners[1], 100000, fmt.Sprintf(`{"price":"%s%s","promotions_by_volume":[{"volume":1,"discount":"%s"}]}`, c.Base, denom, []string{"10.5", "20.25", "1.0", "100.000001"}[int(c.VolAt)%4]), 1)
+	// ... and the same texts as a re-pricing of a valid binding, with no deposit riding along
+	pupd := s.A.SignProv[2]
+	s.bind("svc", pupd, s.A.Owners[1], 100000, fmt.Sprintf(`{"price":"%s%s"}`, c.Base, denom), 1)
+	s.r.Msg(types.NewMsgUpdateServiceBinding("svc", pupd, nil, fmt.Sprintf(`{"price":"%s%s","promotions_by_volume":[{"volume":1,"discount":"%s"}]}`, c.Base, denom, []string{"1.5", "20.25", "1.0", "100.000001"}[int(c.VolAt)%4]), 0, "{}", s.A.Owners[1]), "re-pricing with a discount that is not below one")
 	op, err := ParsePricingText(pricing)
 	if err != nil {
 		s.done()
@@ -565,9 +569,13 @@ func runPrice(a *App, mon *Mon, seed int64, c priceCase) {
 	id := s.call("svc", []sdk.AccAddress{p1}, cons, cap, 1, false, true, 1, 9)
 	// another consumer asks only the provider whose binding must not exist: every batch is skipped
 	s.call("svc", []sdk.AccAddress{pbad}, s.A.Consumers[1], 100000, 1, false, true, 1, 5)
+	s.call("svc", []sdk.AccAddress{pupd}, s.A.Stranger, 100000, 1, false, true, 1, 5)
 	for b := 0; b < 11; b++ {
 		for _, rid := range s.pendingOf("", pbad) {
 			s.respond(rid, pbad, 0)
+		}
+		for _, rid := range s.pendingOf("", pupd) {
+			s.respond(rid, pupd, 0)
 		}
 		for _, rid := range s.pendingOf(id, p1) {
 			kind := 0
@@ -846,7 +854,9 @@ func runEarn(a *App, mon *Mon, seed int64, c earnCase) {
 	earnRound()
 	type wd struct{ o, p sdk.AccAddress }
 	ws := []wd{{o2, short1}, {o3, short2}, {o2, short3}, {o1, p1}, {o1, nil}, {o2, nil}, {o3, p4}, {o1, p2}, {o2, p3}, {o1, o1}, {o3, nil}, {o2, p1}, {o1, short1},
-		{o2, p19}, {o1, q}, {o3, pff}, {o2, p19}, {o3, nil}}
+		{o2, p19}, {o1, q}, {o3, pff}, {o2, p19}, {o3, nil},
+		// the withdrawal address is a payee, not a signer: it cannot trigger a payout
+		{s.A.Wallets[0], p1}, {s.A.Wallets[1], p3}, {o1, p4}, {s.A.Wallets[0], nil}}
 	rng := rand.New(rand.NewSource(int64(c.Order)*7919 + 1))
 	rng.Shuffle(len(ws), func(i, j int) { ws[i], ws[j] = ws[j], ws[i] })
 	for i, w := range ws {
@@ -854,6 +864,9 @@ func runEarn(a *App, mon *Mon, seed int64, c earnCase) {
 		if i == 4 {
 			if c.WaWhen == 3 {
 				s.r.Msg(types.NewMsgSetWithdrawAddress(o2, s.A.Wallets[0]), "")
+				if c.Order%8 >= 4 {
+					s.r.Msg(types.NewMsgSetWithdrawAddress(o3, s.r.w.actors["feecollector"]), "an existing module account (fee collector) as wallet")
+				}
 			}
 			earnRound()
 		}
